@@ -10,7 +10,7 @@ prop, wt = sys.argv[1], sys.argv[2]
 checks = sys.argv[3:] or [prop]
 ENV = dict(os.environ, GOFLAGS="-mod=mod", GOPROXY="off", GOSUMDB="off", GOTOOLCHAIN="local")
 PKGDIR = {"seed2": "", "table": "fw/table", "fw": "fw/fw", "face": "fw/face", "mgmt": "fw/mgmt", "encoding": "std/encoding", "encoding_test": "std/encoding",
-          "basic": "std/engine/basic", "object": "std/object", "dv": "dv/dv", "spec_2022": "std/ndn/spec_2022", "codegen": "std/encoding/codegen", "security": "std/security", "mgmt_2022": "std/ndn/mgmt_2022", "dispatch": "fw/dispatch", "gen_basic": "std/encoding/tests/gen_basic", "basic_test": "std/engine/basic"}
+          "basic": "std/engine/basic", "object": "std/object", "dv": "dv/dv", "table_dv": "dv/table", "spec_2022": "std/ndn/spec_2022", "codegen": "std/encoding/codegen", "security": "std/security", "mgmt_2022": "std/ndn/mgmt_2022", "dispatch": "fw/dispatch", "gen_basic": "std/encoding/tests/gen_basic", "basic_test": "std/engine/basic"}
 def sh(cmd, **k):
     return subprocess.run(cmd, shell=True, capture_output=True, text=True, env=k.pop("env", ENV), **k)
 TAGS = ""
